@@ -2320,9 +2320,9 @@ impl<'a> Parser<'a> {
                 field_name: Some(field_name),
                 field_type,
             })
-        });
+        })?;
         self.expect_token(&Token::RParen)?;
-        struct_body
+        Ok(struct_body)
     }
 
     /// Parse a field definition in a [struct] or [tuple].
@@ -9512,10 +9512,14 @@ impl<'a> Parser<'a> {
             loop {
                 let value = if let Some(expr) = self.try_parse_expr_sub_query()? {
                     expr
-                } else if let Ok(expr) = self.parse_expr() {
-                    expr
                 } else {
-                    self.expected("variable value", self.peek_token())?
+                    match self.parse_expr() {
+                        Ok(expr) => expr,
+                        Err(ParserError::RecursionLimitExceeded) => {
+                            return Err(ParserError::RecursionLimitExceeded)
+                        }
+                        Err(_) => self.expected("variable value", self.peek_token())?,
+                    }
                 };
 
                 values.push(value);
@@ -9546,6 +9550,9 @@ impl<'a> Parser<'a> {
                     local: modifier == Some(Keyword::LOCAL),
                     value: expr,
                 }),
+                Err(ParserError::RecursionLimitExceeded) => {
+                    Err(ParserError::RecursionLimitExceeded)
+                }
                 _ => self.expected("timezone value", self.peek_token())?,
             }
         } else if variable.to_string().eq_ignore_ascii_case("CHARACTERISTICS") {
